@@ -1,7 +1,7 @@
 #!/bin/bash
 # tools/run_all.sh [tier] : runs every registered check, prints exit code and wall time
 tier=${1:-quick}
-cd /verif
+cd "$(dirname "$0")/.." || exit 2
 for p in $(python3 -c "import json; print(' '.join(c['property_id'] for c in json.load(open('MANIFEST.json'))['checks']))"); do
   s=$(date +%s)
   ./check $p --tier $tier > .work/last_$p.log 2>&1; rc=$?
